@@ -1188,7 +1188,8 @@ class World:
                 raise Inconclusive(f'{c.origin}: contract of {cname} differs from the one assumed in shim/{sfile}.rs\n  shim: {norm(sreq)} | {norm(sens)}\n  here: {norm(c.requires)} | {norm(c.ensures)}')
             self.shim_discharged = getattr(self, 'shim_discharged', [])
             if not reach and not stub:
-                self.shim_discharged.append({'shim': shim_ref, 'function': f'{modpath}::{cname}', 'source': m.get('registry', m.get('file'))})
+                self.shim_discharged.append({'shim': shim_ref, 'function': f'{modpath}::{cname}', 'source': m.get('registry', m.get('file')),
+                                             'assumed_in_shim': shim_is_external(os.path.join(VERIF, 'shim', sfile + '.rs'), spath)})
         if stub and vin:
             # callee verified in another world under the same contract text
             other = World(vin).vc.fns.get(key)
@@ -1576,6 +1577,21 @@ class World:
             self._ghost.append((a, b))
             pos = b + 1
         return body, res
+
+
+def shim_is_external(path, fpath):
+    """True when the shim function is an `external_body` one (its contract is ASSUMED); False when the shim carries a model body
+    that Verus verifies against the contract"""
+    try:
+        t = open(path).read()
+    except OSError:
+        return False
+    name = fpath.split('::')[-1]
+    for mm in re.finditer(r'\bfn\s+' + re.escape(name) + r'\b', t):
+        pre = t[max(0, mm.start() - 160):mm.start()]
+        if 'external_body' in pre.split('}')[-1]:
+            return True
+    return False
 
 
 def shim_contract_text(path, fpath):
